@@ -44,6 +44,17 @@ THEOREMS = ["Wtf.C04." + t for t in (
 ASSERTIONS = ["platform:crossPlatformTools", "platform:checkPlatformVariant-shape", "c04:gate-shape", "c04:lexical-gate", "c04:fuzzy-gate",
               "c04:recovery-gate", "c04:legacy-pipeline-gate", "c04:cli-options", "c04:cli-recovery-gate", "c07:fallback-sites"]
 
+# ---- legacy entry points with their own gates (Props/C04b.lean; correspondence domain legacy2) ----
+THEOREMS += ["Wtf.C04." + t for t in ("hostOnly_is_default", "legacy_pipeline_modelled", "search_with_options_platform",
+                                      "search_with_fuzzy_platform")]
+ASSERTIONS += ["legacyscore:shape:" + s for s in ("SearchWithOptions", "SearchWithPipelineOptions", "db.calculateCommandScore", "isPipelineCommand",
+                                                  "isCrossPlatformTool", "SearchWithFuzzy", "performFuzzySearch", "combineAndDeduplicateResults")]
+PROP["level_text"] += (" Props/C04b.lean, on the correspondence-validated models of the legacy entry points (domain legacy2): pipeline clause for "
+                       "SearchWithPipelineOptions with the scorer modelled; every result of SearchWithOptions satisfies `Allowed` for the host with no "
+                       "platform request; every result of SearchWithFuzzy does so or passes the gate of the caller's options (typo half).")
+PROP["assumptions"] += ["SearchWithOptions / exact half of SearchWithFuzzy (exported, unused by CLI and cache): only the host gate is claimed; the options "
+                        "Platforms / NoCrossPlatform / AllPlatforms / PipelineOnly are not read there (counted under out-of-scope:* tags)"]
+
 
 def nontrivial(tags, ops, impl):
     return any(k.startswith("c04-filtered-answer-") and v > 0 for k, v in tags.items())
@@ -108,7 +119,7 @@ def gate_vs_predicate(ctx):
 
 def run(ctx):
     ctx.stage_xlate(required_assertions=ASSERTIONS)
-    ctx.stage_prove(THEOREMS)
+    ctx.stage_prove(THEOREMS, extra_targets=["WtfModel.Props.C04b"])
     if not ctx.stage_build():
         return
     quick = ctx.tier == "quick"
@@ -122,6 +133,9 @@ def run(ctx):
     # the general generator of the search family (random options, paired runs, odd text)
     ctx.correspond("search", 1200 if quick else 8000, name="search", shrink=False, nontrivial=nontrivial, seed_offset=3, sample_n=1)
     cli_stream(ctx, 16 if quick else 80)
+    # legacy entry points: host gate of SearchWithOptions, both halves of SearchWithFuzzy, pipeline gate of SearchWithPipelineOptions
+    ctx.correspond("legacy2", 250 if quick else 4000, nontrivial=lambda tags, ops, impl: tags.get("legacy2.platform-excluded", 0) > 0 and tags.get("nonempty", 0) > 0,
+                   shrink=False, seed_offset=31)
 
 
 def replay(ctx, rep):
